@@ -250,3 +250,35 @@ def now() -> float:
 
 def short_tb(limit=6) -> str:
     return "".join(traceback.format_exc(limit=limit))[-1500:]
+
+
+def exc_in_library() -> bool:
+    """True if the library under test is on the traceback of the exception being handled, False if the
+    exception arose purely inside the harness.  A pure harness error must end INCONCLUSIVE, never as a
+    violation."""
+    import sys as _sys
+
+    tb = _sys.exc_info()[2]
+    last_harness = last_lib = -1
+    i = 0
+    lib = os.path.join(os.path.realpath(REPO), "nutree") + os.sep
+    here = os.path.dirname(os.path.abspath(__file__)) + os.sep
+    while tb is not None:
+        fn = os.path.realpath(tb.tb_frame.f_code.co_filename)
+        if fn.startswith(lib):
+            last_lib = i
+        elif fn.startswith(here):
+            last_harness = i
+        tb = tb.tb_next
+        i += 1
+    # library frames anywhere in the traceback: the library raised, or it invoked a harness callback with
+    # something the callback (total on every input the documentation allows) could not digest
+    return last_lib >= 0
+
+
+def note_exc(res, bad, prefix):
+    """Record the exception being handled: as a finding if the library raised it, else INCONCLUSIVE."""
+    if exc_in_library():
+        bad.append(prefix + short_tb())
+    else:
+        res.inconc("harness error: " + short_tb())
